@@ -38,7 +38,7 @@ inductive CPat where
   | object (nfields : Nat) (orders : List Nat) (es : List CPat)
       -- elements in the order written; `orders[k]` = `field_order` of element `k`
   | variant (c : Ctor) (args : List CPat)     -- `tag_order` + `data_variables`
-  | id
+  | id (x : Nat)                              -- binds source name `x` (a `LateInitAssignment`)
   | wild
   | or (ps : List CPat)
   deriving Repr, Inhabited
@@ -46,7 +46,8 @@ inductive CPat where
 mutual
 /-- Statements + condition expression produced for one pattern on one scrutinee expression. -/
 inductive Code where
-  | one                                   -- `([], hir::ONE)`: `Id`, `Wildcard`
+  | one                                   -- `([], hir::ONE)`: `Wildcard`
+  | bind (x : Nat)                        -- `([LateInitAssignment { binding_names[x], scrutinee }], hir::ONE)`: `Id`
   | zero                                  -- `([], hir::ZERO)`: `Or([])`
   | struct (fs : Fields)                  -- `Tuple` / `Object`: one `IndexedAccess` per element
   | destructure (c : Ctor) (nbind : Nat) (fs : Fields)
@@ -66,6 +67,7 @@ mutual
 /-- `condition == hir::ONE` (syntactic test on the returned expression). -/
 def Code.isOne : Code → Bool
   | .one => true
+  | .bind _ => true
   | .zero => false
   | .struct fs => fs.isOne
   | .destructure _ _ _ => false      -- a fresh temporary
@@ -82,7 +84,7 @@ def mkField (idx : Nat) (nested : Code) (rest : Fields) : Fields :=
 
 mutual
 def lowerPat : CPat → Code
-  | .id => .one
+  | .id x => .bind x
   | .wild => .one
   | .tuple _ es => .struct (lowerElems es 0)
   | .object _ orders es => .struct (lowerObj orders es)
@@ -109,7 +111,7 @@ end
 
 mutual
 def absOf : CPat → Pat
-  | .id => .wild
+  | .id _ => .wild
   | .wild => .wild
   | .tuple _ es => .struct none (absAll es)
   | .object n orders es => .struct none (absObj orders es (wilds n))
@@ -128,7 +130,7 @@ end
 
 mutual
 def lowerCrash : CPat → Bool
-  | .id => false
+  | .id _ => false
   | .wild => false
   | .tuple n es => decide (n < es.length) || lowerCrashAll es
   | .object n orders es => orders.any (fun o => decide (n ≤ o)) || lowerCrashAll es
@@ -150,6 +152,7 @@ mutual
 /-- `none` = engine-level fault (ill-typed / out-of-bounds struct access, destructuring a non-variant). -/
 def evalCode : Code → Val → Option Bool
   | .one, _ => some true
+  | .bind _, _ => some true
   | .zero, _ => some false
   | .struct fs, v =>
     match v with
@@ -185,6 +188,164 @@ def evalFields : Fields → List Val → Option Bool
       | some false => some false
 end
 
+/-! ### Bindings.
+`Id` patterns emit `LateInitAssignment { name: binding_names[x], assigned_expression: scrutinee }`
+(hir_lowering.rs:839-845); the temporaries are declared (`LateInitDeclaration`) before the pattern
+code by `lower_match` / `lower_if_else` / `lower_block`, one per name of `pattern.bindings()`, and may
+be assigned more than once (every alternative of an or-pattern assigns them; the assignments of an
+alternative that fails later are *not* undone).  `execCode` returns, next to the condition, the
+assignments performed, latest first; the environment after the pattern code is `Δ ++ env`. -/
+
+abbrev Delta := List (Nat × Val)
+
+mutual
+def execCode : Code → Val → Option (Bool × Delta)
+  | .one, _ => some (true, [])
+  | .bind x, v => some (true, [(x, v)])
+  | .zero, _ => some (false, [])
+  | .struct fs, v =>
+    match v with
+    | .con none vs => execFields fs vs
+    | _ => if fs.isDone then some (true, []) else none
+  | .destructure c n fs, v =>
+    match v with
+    | .con (some c') args =>
+      if c' = c then (if n ≤ args.length then execFields fs args else none)
+      else some (false, [])
+    | _ => none
+  | .orElse first rest, v =>
+    match execCode first v with
+    | none => none
+    | some (true, d) => some (true, d)
+    | some (false, d) =>
+      match execCode rest v with
+      | none => none
+      | some (b, d') => some (b, d' ++ d)
+def execFields : Fields → List Val → Option (Bool × Delta)
+  | .done, _ => some (true, [])
+  | .seq i nested rest, vs =>
+    match vs[i]? with
+    | none => none
+    | some x =>
+      match execCode nested x with
+      | none => none
+      | some (_, d) =>
+        match execFields rest vs with
+        | none => none
+        | some (b, d') => some (b, d' ++ d)
+  | .guard i nested rest, vs =>
+    match vs[i]? with
+    | none => none
+    | some x =>
+      match execCode nested x with
+      | none => none
+      | some (false, d) => some (false, d)
+      | some (true, d) =>
+        match execFields rest vs with
+        | none => none
+        | some (b, d') => some (b, d' ++ d)
+end
+
+mutual
+/-- `MatchingPattern::bindings()` (samlang-ast source.rs:342-371), as a list of names: an
+or-pattern contributes the bindings of its *first* alternative. -/
+def names : CPat → List Nat
+  | .id x => [x]
+  | .wild => []
+  | .tuple _ es => namesL es
+  | .object _ _ es => namesL es
+  | .variant _ args => namesL args
+  | .or ps => namesFirst ps
+def namesL : List CPat → List Nat
+  | [] => []
+  | p :: ps => names p ++ namesL ps
+def namesFirst : List CPat → List Nat
+  | [] => []
+  | p :: _ => names p
+end
+
+/-- same set of names -/
+def sameNames (a b : List Nat) : Bool := a.all (fun x => b.contains x) && b.all (fun x => a.contains x)
+
+mutual
+/-- What the checker guarantees about bindings when it reports nothing: every alternative of an
+or-pattern binds the same names (`report_or_pattern_inconsistent_bindings_error`,
+main_checker.rs:1462-1500). -/
+def bindsOk : CPat → Bool
+  | .id _ => true
+  | .wild => true
+  | .tuple _ es => bindsOkL es
+  | .object _ orders es => decide (orders.length = es.length) && bindsOkL es
+  | .variant _ args => bindsOkL args
+  | .or ps => bindsOkL ps && altsSame (namesFirst ps) ps
+def bindsOkL : List CPat → Bool
+  | [] => true
+  | p :: ps => bindsOk p && bindsOkL ps
+def altsSame (ns : List Nat) : List CPat → Bool
+  | [] => true
+  | p :: ps => sameNames (names p) ns && altsSame ns ps
+end
+
+mutual
+/-- Source semantics of the bindings of a pattern that matches `v` (latest first): every `Id`
+binds the sub-value at its position; an or-pattern binds what its first *matching* alternative binds. -/
+def srcDelta : CPat → Val → Delta
+  | .id x, v => [(x, v)]
+  | .wild, _ => []
+  | .tuple _ es, v =>
+    match v with
+    | .con none vs => srcDeltaL es vs
+    | _ => []
+  | .object _ orders es, v =>
+    match v with
+    | .con none vs => srcDeltaObj orders es vs
+    | _ => []
+  | .variant _ args, v =>
+    match v with
+    | .con (some _) ws => srcDeltaL args ws
+    | _ => []
+  | .or ps, v => srcDeltaOr ps v
+def srcDeltaL : List CPat → List Val → Delta
+  | p :: ps, v :: vs => srcDeltaL ps vs ++ srcDelta p v
+  | _, _ => []
+def srcDeltaObj : List Nat → List CPat → List Val → Delta
+  | o :: orders, p :: es, vs =>
+    match vs[o]? with
+    | some x => srcDeltaObj orders es vs ++ srcDelta p x
+    | none => srcDeltaObj orders es vs
+  | _, _, _ => []
+def srcDeltaOr : List CPat → Val → Delta
+  | [], _ => []
+  | p :: ps, v => if pmatch (absOf p) v then srcDelta p v else srcDeltaOr ps v
+end
+
+/-! ### `if let p = e { a } else { b }` (hir_lowering.rs:586-645) and `let p = e;` (…:1138-1152) -/
+
+/-- `condition == hir::ZERO` -/
+def Code.isZero : Code → Bool
+  | .zero => true
+  | _ => false
+
+inductive Branch where
+  | thenB (d : Delta)    -- the `then` block runs, with these assignments done
+  | elseB
+  | fault
+  deriving Repr
+
+/-- `lower_if_else` with a `Guard(p, e)` condition: a condition that is literally `ONE` / `ZERO`
+selects the block at compile time (the pattern statements are still emitted). -/
+def runIfLet (c : Code) (v : Val) : Branch :=
+  match execCode c v with
+  | none => .fault
+  | some (b, d) =>
+    if c.isOne then .thenB d
+    else if c.isZero then .elseB
+    else if b then .thenB d else .elseB
+
+/-- `let p = e;`: the pattern statements run, the condition is dropped; the rest of the block then
+reads the bound temporaries. `none` = fault. -/
+def runLet (c : Code) (v : Val) : Option Delta := (execCode c v).map (·.2)
+
 /-- How a `match` ends (hir_lowering.rs:873-947): the arms are tested in order, the innermost `else`
 is the call `Process.panic(0, "")`. -/
 inductive MatchEnd where
@@ -209,11 +370,19 @@ def lowerMatch (arms : List CPat) : List Code := arms.map lowerPat
 /-- the abstract patterns the checker hands to the exhaustiveness analysis (main_checker.rs:971-999) -/
 def abstractArms (arms : List CPat) : List Pat := arms.map absOf
 
-/-! ### Checked patterns are typed (what `check_matching_pattern` guarantees when it reports nothing) -/
+/-! ### Checked patterns are typed (what `check_matching_pattern` guarantees when it reports nothing).
+Since fix 76a01ae the checker also rejects an object pattern that names a field twice (before it,
+`{ f as A, f as _ }` was accepted, the exhaustiveness analysis kept only the last sub-pattern while
+the lowered code tested both: former finding C03-F3), so `orders` has no duplicates. -/
+
+def nodupNat : List Nat → Bool
+  | [] => true
+  | x :: xs => !xs.contains x && nodupNat xs
+
 
 mutual
 def cpatTy (sig : Sig) : CPat → Nat → Bool
-  | .id, _ => true
+  | .id _, _ => true
   | .wild, _ => true
   | .tuple n es, t =>
     match sig t with
@@ -221,7 +390,8 @@ def cpatTy (sig : Sig) : CPat → Nat → Bool
     | _ => false
   | .object n orders es, t =>
     match sig t with
-    | .struct fs => decide (n = fs.length) && cobjTy sig (fs.map (fun f => f.2)) orders es
+    | .struct fs =>
+      decide (n = fs.length) && nodupNat orders && cobjTy sig (fs.map (fun f => f.2)) orders es
     | _ => false
   | .variant c args, t =>
     match ctorFields sig t (some c) with
@@ -244,27 +414,6 @@ def cobjTy (sig : Sig) (tys : List Nat) : List Nat → List CPat → Bool
 def cpatTyAll (sig : Sig) : List CPat → Nat → Bool
   | [], _ => true
   | p :: ps, t => cpatTy sig p t && cpatTyAll sig ps t
-end
-
-/-! ### Side condition of the partial theorems: no object pattern names a field twice.
-(The checker accepts `{ f as A, f as _ }`, keeps only the last sub-pattern for the exhaustiveness
-analysis while the lowered code tests both: finding C03-F3.) -/
-
-def nodupNat : List Nat → Bool
-  | [] => true
-  | x :: xs => !xs.contains x && nodupNat xs
-
-mutual
-def noDupFields : CPat → Bool
-  | .id => true
-  | .wild => true
-  | .tuple _ ps => noDupFieldsL ps
-  | .object _ orders es => nodupNat orders && noDupFieldsL es
-  | .variant _ ps => noDupFieldsL ps
-  | .or ps => noDupFieldsL ps
-def noDupFieldsL : List CPat → Bool
-  | [] => true
-  | p :: ps => noDupFields p && noDupFieldsL ps
 end
 
 end SamVerif.MatchLower
